@@ -58,7 +58,8 @@ type world struct {
 	stubFail bool
 	// history for oracles
 	everActive map[string]bool
-	obs        []string   // per-op observation (for differential twins)
+	obs        []string // per-op observation (for differential twins)
+	fsw        *verifrt.FSWorld
 	conc       *concState // non-nil during the concurrent phase of C15
 	fixedSync  *syncArgs  // C15: arguments of the concurrently issued Synchronize
 	conc0      *concState // the finished phase
@@ -330,6 +331,80 @@ func (w *world) initTold(c *rCtr) {
 	c.init.apply(r)
 	c.t = c.init
 	c.rv = c.init
+}
+
+// doOpMaybeCrashing: a lifecycle request during which the plugin process is
+// killed at one of its file-system operations (only what had reached the state
+// directory survives). The runtime carries on without the plugin's answer; the
+// plugin is then restarted on its state directory and the runtime synchronizes.
+func (w *world) doOpMaybeCrashing(op *Op) *reply {
+	if op.Crash <= 0 || w.dead || w.fsw == nil {
+		return w.doOp(op)
+	}
+	switch op.Kind {
+	case "create", "start", "update", "stop", "remove", "run-pod", "stop-pod", "remove-pod":
+	default:
+		return w.doOp(op)
+	}
+	fs := w.fsw
+	at := fs.Ops() + op.Crash
+	action := "crash-before"
+	if op.CrashAfter {
+		action = "crash-after"
+	}
+	fs.Faults[at] = verifrt.FSFault{At: at, Action: action}
+	var rep *reply
+	crashed := false
+	func() {
+		defer func() {
+			if r := recover(); r != nil {
+				if !verifrt.IsCrash(r) {
+					panic(r)
+				}
+				crashed = true
+			}
+		}()
+		rep = w.doOp(op)
+	}()
+	delete(fs.Faults, at)
+	if !crashed {
+		return rep // the request made fewer fs operations than that
+	}
+	w.res.Fault("crash.mid-request/" + op.Kind)
+	// what the runtime does when the plugin dies under a request: it goes on
+	switch op.Kind {
+	case "create":
+		if c, ok := w.rt.ctrs[op.Ctr.ID]; ok && c.state == "creating" {
+			c.state = "created" // created without any adjustment
+			c.lostGrant = ""
+		}
+	case "update":
+		if c, ok := w.rt.ctrs[op.ID]; ok {
+			c.reqUnsure = true // kubelet's new values may or may not have reached the cache
+		}
+	}
+	w.pushed = nil
+	// restart on what is on disk
+	resmgr.VerifStopEvents(w.rm)
+	w.rejectedReconf, w.reconfiguredInc, w.revertFailedInc, w.failedReqInc = false, false, false, false
+	for _, c := range w.rt.ctrs {
+		c.restarts++
+	}
+	w.fsw = w.vw.NewFS(filepath.Join(w.root, "state"))
+	rep = &reply{op: op, kind: "restart"}
+	if err := w.bootRecover(w.cfg); err != nil {
+		rep.err = err
+		if len(w.res.Violations) == 0 {
+			w.dead = true
+			w.res.Violate("C11", "restart-after-crash", "C11 restart-after-crash refused "+op.Kind, w.step, "after the plugin was killed at fs operation %d (%s) of %s it does not start on its state directory any more: %v", op.Crash, action, op.Kind, err)
+		}
+		return rep
+	}
+	rep.err, rep.crashed = w.synchronize(rep)
+	if !rep.crashed {
+		w.applyReply(rep)
+	}
+	return rep
 }
 
 // doOp delivers one operation to the plugin and returns what came back.
